@@ -139,13 +139,17 @@ def crash_cases(ck, kind, n, gen):
         pre.append([old, delta])
     enc = ck.stream(kind + "-encodings", pre, None, "C18_%senc" % kind, None, sample=1)
     cases = []
+    nevery = 0
     for (old, delta), e in zip(pre, enc):
         v = vlib.vparse(e)
         if not (isinstance(v, list) and len(v) == 2 and isinstance(v[1], bytes)):
             ck.fail(kind + "-encodings", "encodings-harness", vlib.vs([old, delta]), observed=e)
             continue
         oldf, newb = v
-        ks = prefix_classes(rng, len(newb), ck.thorough and len(cases) % 10 == 0)
+        # thorough: every prefix length for up to 12 cases with a small file (the wire carries each state's content)
+        every = ck.thorough and 1 < len(newb) <= 500 and nevery < 12
+        nevery += 1 if every else 0
+        ks = prefix_classes(rng, len(newb), every)
         cases.append([old, delta, ks, oldf, newb])
     torn = [[c[0], c[1], [0] + c[2]] for c in cases if len(c[4]) > 1]
     return cases, torn
@@ -192,7 +196,7 @@ def run(ck):
              ">= 2 saves, a delete and a flush followed by a restart.  (2) crash experiment: a first server writes the old "
              "table (15% nothing on disk), a child process starts on it, applies a delta (7% nothing pending) and flushes; it "
              "is killed (SIGKILL) at each hook point of EncodeJSONFile in turn; the directory after each death, plus the file "
-             "being written truncated to prefix classes {1, n/2, n-1, 2 random} (thorough: every length for each 10th case), is "
+             "being written truncated to prefix classes {1, n/2, n-1, 2 random} (thorough: every length for 12 cases per table kind), is "
              "compared byte for byte with the model's crash_states and loaded by a fresh provider: the result must be the "
              "complete old or new table (crash_ok); the hook log must equal the model's operation names.  (3) the JSON laws on "
              "the real decoder: the target overwritten with its own prefixes must not load.  (4) the known finding is replayed.",
